@@ -332,7 +332,19 @@ impl EventParser {
                             "Result", "Box", "Rc", "Arc", "Self",
                         ]
                         .contains(&owner.as_str());
-                        if owner.starts_with(char::is_uppercase) && !generic_container {
+                        // Only a constructor tells the type of its result: Type::new(..),
+                        // Type::default(), Type::from(..), Type::with_capacity(..), or the variant
+                        // Status::Done(3). Job::count() or Job::find_all() return something else.
+                        let function = segments[segments.len() - 1].ident.to_string();
+                        let constructor = function.starts_with(char::is_uppercase)
+                            || ["new", "default", "from"].contains(&function.as_str())
+                            || ["new_", "with_", "from_"]
+                                .iter()
+                                .any(|prefix| function.starts_with(prefix));
+                        if owner.starts_with(char::is_uppercase)
+                            && !generic_container
+                            && constructor
+                        {
                             return owner;
                         }
                     }
